@@ -18,6 +18,7 @@ import (
 	"encoding/json"
 	"fmt"
 	"sync"
+	"sync/atomic"
 	"time"
 
 	"github.com/enbility/spine-go/api"
@@ -78,7 +79,16 @@ func ovCount(k string) {
 	ovMu.Unlock()
 }
 
+// parkedWrite: see execRound
+type parkedWrite struct {
+	except  int64 // writes to this peer are not held
+	taken   atomic.Bool
+	parked  chan struct{}
+	release chan struct{}
+}
+
 type World struct {
+	park    atomic.Pointer[parkedWrite]
 	ov      *overlap
 	mu      sync.Mutex
 	log     []logItem
@@ -96,6 +106,16 @@ type writer struct {
 }
 
 func (wr *writer) WriteShipMessageWithPayload(msg []byte) {
+	if pk := wr.w.park.Load(); pk != nil && wr.ski != pk.except && pk.taken.CompareAndSwap(false, true) {
+		// the first write of a notification round to a peer other than the one about to be removed is
+		// held here - inside the connection's writer, no lock of the harness or the stack held by us -
+		// until the runner has removed that peer (bounded)
+		close(pk.parked)
+		select {
+		case <-pk.release:
+		case <-time.After(5 * time.Second):
+		}
+	}
 	wr.w.mu.Lock()
 	defer wr.w.mu.Unlock()
 	wr.w.log = append(wr.w.log, logItem{ski: wr.ski, msg: append([]byte(nil), msg...)})
